@@ -183,7 +183,8 @@ Proof.
   - dbind H as [s1 v1]. apply IHa in E.
     destruct v1; try discriminate;
       try (destruct (py_own_attr f); [discriminate|]);
-      try (injection H as <- _; exact E).
+      try (injection H as <- _; exact E);
+      try (destruct (String.eqb f "id"); [injection H as <- _; exact E|discriminate]).
     + destruct (nth_error (heap s1) h); [|discriminate].
       destruct (row_attr c f); injection H as <- _; exact E.
     + destruct (String.eqb f "id"); [|discriminate]. dbind H as [s2 i].
@@ -230,6 +231,7 @@ Proof.
       destruct (row_attr c p); [|discriminate]. injection E as <- _. apply tq_refl.
     + destruct (String.eqb p "id"); [|discriminate]. dbind E as [s2 i].
       injection E as <- _. apply touch_slot_tq in E0. exact E0.
+    + destruct (String.eqb p "id"); [|discriminate]. injection E as <- _. apply tq_refl.
 Qed.
 
 Lemma reference_tq e path s s' v : reference e path s = Ok (s', v) -> tq s s'.
@@ -242,7 +244,12 @@ Proof.
   - injection H as <- _. exact E0.
   - dbind H as [s2 i]. injection H as <- _.
     apply touch_slot_tq in E1. eapply tq_trans; eassumption.
+  - injection H as <- _. exact E0.
 Qed.
+
+(* the random-reference state is not part of the invariant *)
+Lemma rnd_only_tq s s' : rnd_only s s' -> tq s s'.
+Proof. intros [x ->]. unfold tq. splits; [reflexivity|reflexivity|intros H; exact H]. Qed.
 
 Lemma flatten_fields_tq fs : forall s s' l, flatten_fields s fs = Ok (s', l) -> tq s s'.
 Proof.
@@ -469,15 +476,19 @@ Proof.
     destruct x as [t|name d].
     + destruct (t_once t && c); [injection H as <- _; split; [exact HK|apply bal_refl]|].
       dbind H as [s1 r1]. injection H as <- _. eapply IH; eassumption.
-    + dbind H as [s1 r1]. injection H as <- _.
-      assert (K0 : K (push_frame s)) by (eapply K_same_core; [apply push_frame_core|exact HK]).
-      destruct (IH _ _ _ _ _ E K0) as [K1 B1].
-      assert (C1 : same_core s1 (set_var (pop_frame s1) name (ret_value r1))).
-      { eapply same_core_trans; [apply pop_frame_core|apply set_var_core]. }
-      split; [eapply K_same_core; eassumption|].
-      eapply bal_trans; [apply (core_bal s (push_frame s)); [apply push_frame_core|reflexivity]|].
-      eapply bal_trans; [exact B1|]. apply core_bal; [exact C1|].
-      rewrite set_var_out, pop_frame_out. reflexivity.
+    + assert (Hgen : forall s1 r1, run n e (TField d) (push_frame s) = Ok (s1, r1) ->
+                       K (set_var (pop_frame s1) name (ret_value r1)) /\
+                       bal s (set_var (pop_frame s1) name (ret_value r1))).
+      { intros s1 r1 E.
+        assert (K0 : K (push_frame s)) by (eapply K_same_core; [apply push_frame_core|exact HK]).
+        destruct (IH _ _ _ _ _ E K0) as [K1 B1].
+        assert (C1 : same_core s1 (set_var (pop_frame s1) name (ret_value r1))).
+        { eapply same_core_trans; [apply pop_frame_core|apply set_var_core]. }
+        split; [eapply K_same_core; eassumption|].
+        eapply bal_trans; [apply (core_bal s (push_frame s)); [apply push_frame_core|reflexivity]|].
+        eapply bal_trans; [exact B1|]. apply core_bal; [exact C1|].
+        rewrite set_var_out, pop_frame_out. reflexivity. }
+      destruct d; try discriminate; (dbind H as [s1 r1]; injection H as <- _; eapply Hgen; reflexivity).
   - (* TRows *)
     dbind H as [s1 cnt]. dbind H as [s2 r2]. injection H as <- _.
     assert (K0 : K (push_frame s)) by (eapply K_same_core; [apply push_frame_core|exact HK]).
@@ -503,7 +514,11 @@ Proof.
     destruct (new_row_id s (t_table t) (t_nick t)) as [s1 id] eqn:Hid.
     dbind H as [s4 r4].
     destruct (nth_error (heap s4) (length (heap s1))) as [c|] eqn:Hc; [|discriminate].
-    dbind H as s6. dbind H as [s7 r7]. injection H as <- _.
+    dbind H as s5h. dbind H as s6x. dbind H as [s7 r7]. injection H as <- _.
+    destruct (remember_history_rnd _ _ _ _ _ _ E0) as [xr ->]. clear E0.
+    rewrite write_row_rnd in E1.
+    destruct (write_row (remember_deps s4 (t_table t) (c_fields c)) (length (heap s1))) as [s6|] eqn:E0; [|discriminate].
+    cbn [liftRS] in E1. injection E1 as <-. rename E2 into E1.
     destruct (new_row_K _ _ _ _ _ i [] Hid HK) as (Kc & Hh1 & Ho1).
     set (s2 := upd_heap s1 (heap s1 ++ [mkCell (t_table t) id i []])) in *.
     set (s3 := register_object (set_obj s2 (length (heap s1))) (length (heap s1)) (t_table t) (t_nick t) (t_once t)) in *.
@@ -543,7 +558,9 @@ Proof.
         + intros T HT. cbn [out upd_out]. rewrite Ho, Ho5. unfold written at 1. cbn [flat_map fst snd orow_id].
           fold (written T (out s4)). apply Permutation_refl. }
     destruct Hw as (K6 & Hcell6 & Hwr6).
-    destruct (IH _ _ _ _ _ E1 K6) as [K7 B7].
+    assert (K6x : K (upd_rnd s6 xr)) by exact K6.
+    destruct (IH _ _ _ _ _ E1 K6x) as [K7 B7x].
+    assert (B7 : bal s6 s7) by exact B7x.
     split; [exact K7|].
     (* the balance: created [id], written [id] (visible tables) *)
     intros T HT.
@@ -584,7 +601,7 @@ Proof.
     eapply bal_trans; [exact B1|]. eapply bal_trans; [|exact B2].
     apply core_bal; [apply set_field_core|apply set_field_out].
   - (* TField *)
-    destruct d as [z|x|ps|path|t].
+    destruct d as [z|x|ps|path|t|to].
     + injection H as <- _. split; [exact HK|apply bal_refl].
     + destruct (version e =? 3); [injection H as <- _; split; [exact HK|apply bal_refl]|].
       dbind H as w0. injection H as <- _. split; [exact HK|apply bal_refl].
@@ -593,6 +610,8 @@ Proof.
     + dbind H as [s1 v]. injection H as <- _. apply reference_tq in E.
       split; [apply E; exact HK|apply tq_bal; exact E].
     + eapply IH; eassumption.
+    + dbind H as [s1 v]. injection H as <- _. apply random_reference_rnd in E. apply rnd_only_tq in E.
+      split; [apply E; exact HK|apply tq_bal; exact E].
 Qed.
 
 (* ------------------------------------------------------------------ iterations *)
@@ -624,7 +643,11 @@ Proof.
   unfold iteration. intros H HK. dbind H as [s1 r].
   destruct (slots_filled s1) eqn:Hf; [|discriminate].
   destruct (stale_slot 4 s1 (survivors s1)); [discriminate|]. injection H as <-.
-  destruct (run_K _ _ _ _ _ _ E HK) as [[[Hwf Hlen] K1] B1]. splits.
+  destruct (run_K _ _ _ _ _ _ E HK) as [[[Hwf Hlen] K1] B1].
+  (* reset_hist only touches the random-reference state *)
+  cut (K (reset_slots e s1) /\ bal s (reset_slots e s1) /\ (forall T, reserved T (slots (reset_slots e s1)) = [])).
+  { intros Hg. exact Hg. }
+  splits.
   - split; [split; [apply fresh_slots_ok|exact Hlen]|]. intros T. destruct (K1 T) as [HP Hnn].
     change (last_id (reset_slots e s1) T) with (last_id s1 T).
     change (nh (reset_slots e s1)) with (nh s1). cbn [slots reset_slots].
@@ -703,7 +726,7 @@ Proof.
   eapply Permutation_trans; [apply Permutation_sym; exact Hc|]. exact HP.
 Qed.
 
-Lemma init_start_ok e : start_ok (init_st e).
+Lemma init_start_ok e dr : start_ok (init_st e dr).
 Proof.
   unfold start_ok. cbn [init_st slots out]. split; [|split; [|split]].
   - apply fresh_slots_ok.
@@ -720,18 +743,27 @@ Theorem ids_dense_fresh r k s :
     Permutation (written T (out s)) (Zseq 1 (Z.to_nat (last_id s T))).
 Proof.
   unfold run_fresh. intros H T HT.
-  destruct (ids_dense_run _ _ _ _ _ _ (init_start_ok _) H) as [_ HD].
+  destruct (ids_dense_run _ _ _ _ _ _ (init_start_ok _ _) H) as [_ HD].
   destruct (HD T) as [_ HP]. specialize (HP HT).
-  assert (H0 : last_id (init_st (env_of r)) T = 0) by (unfold last_id; reflexivity).
+  assert (H0 : last_id (init_st (env_of r) (r_draws r)) T = 0) by (unfold last_id; reflexivity).
   rewrite H0 in HP. replace (last_id s T - 0) with (last_id s T) in HP by lia. exact HP.
 Qed.
 
 (* ------------------------------------------------------------------ C01: chains of continuation runs *)
 
-Lemma load_start_ok e c : (forall T, 0 <= match lookup T (k_ids c) with Some z => z | None => 0 end) ->
-  start_ok (load e c).
+Lemma load_spec e c s0 : load e c = Ok s0 ->
+  exists h, s0 = mkSt (k_ids c) (fresh_slots e) [] [] (k_p_nicks c) (k_p_tables c) (k_heap c)
+                      [mkFrame [] None] (k_deps c) [] (mkR h (k_draws c)).
 Proof.
-  intros Hnn. unfold start_ok, load. cbn [slots out]. split; [|split; [|split]].
+  unfold load. intros H. dbind H as h. injection H as <-. exists h. reflexivity.
+Qed.
+
+Lemma load_start_ok e c s0 : load e c = Ok s0 ->
+  (forall T, 0 <= match lookup T (k_ids c) with Some z => z | None => 0 end) ->
+  start_ok s0.
+Proof.
+  intros Hl Hnn. destruct (load_spec _ _ _ Hl) as [h ->].
+  unfold start_ok. cbn [slots out]. split; [|split; [|split]].
   - apply fresh_slots_ok.
   - intros T. apply fresh_slots_reserved.
   - intros T. unfold last_id. cbn [ids]. apply Hnn.
@@ -743,8 +775,9 @@ Proof.
   unfold save. intros H. dbind H as h1. injection H as <-. reflexivity.
 Qed.
 
-Lemma load_last_id e c T : last_id (load e c) T = match lookup T (k_ids c) with Some z => z | None => 0 end.
-Proof. reflexivity. Qed.
+Lemma load_last_id e c s0 T : load e c = Ok s0 ->
+  last_id s0 T = match lookup T (k_ids c) with Some z => z | None => 0 end.
+Proof. intros Hl. destruct (load_spec _ _ _ Hl) as [h ->]. reflexivity. Qed.
 
 (* the ids written by a chain of runs, per visible table, starting after the ids [base] *)
 Lemma history_dense r ks : forall (c : option cont) (rowss : list (list orow)) (base : string -> Z),
@@ -764,9 +797,10 @@ Proof.
     assert (Hrun : exists s0, start_ok s0 /\ (forall U, last_id s0 U = base U) /\
                               iterations k (env_of r) (r_stmts r) (match c with None => false | Some _ => true end) s0 = Ok s).
     { destruct c as [c0|]; cbn [run_one] in E.
-      - destruct Hc as [Hb Hnn]. exists (load (env_of r) c0). splits; [|intros U; rewrite load_last_id, Hb; reflexivity|exact E].
-        apply load_start_ok. intros U. rewrite <- Hb. apply Hnn.
-      - exists (init_st (env_of r)). splits; [apply init_start_ok|intros U; rewrite Hc; reflexivity|exact E]. }
+      - destruct Hc as [Hb Hnn]. dbind E as sl. exists sl.
+        splits; [|intros U; rewrite (load_last_id _ _ _ _ E0), Hb; reflexivity|exact E].
+        eapply load_start_ok; [exact E0|]. intros U. rewrite <- Hb. apply Hnn.
+      - exists (init_st (env_of r) (r_draws r)). splits; [apply init_start_ok|intros U; rewrite Hc; reflexivity|exact E]. }
     destruct Hrun as (s0 & Hs0 & Hbase & Hit).
     destruct (ids_dense_run _ _ _ _ _ _ Hs0 Hit) as [Hok HD].
     destruct (HD T) as [Hle HP]. specialize (HP HT). rewrite Hbase in HP, Hle.
@@ -799,5 +833,5 @@ Proof.
 Qed.
 
 (* each continuation resumes numbering immediately after the highest id recorded in the file *)
-Theorem resume_after_highest e s c T : save s = Ok c -> last_id (load e c) T = last_id s T.
-Proof. intros H. rewrite load_last_id, (save_ids _ _ H). reflexivity. Qed.
+Theorem resume_after_highest e s c s0 T : save s = Ok c -> load e c = Ok s0 -> last_id s0 T = last_id s T.
+Proof. intros H Hl. rewrite (load_last_id _ _ _ _ Hl), (save_ids _ _ H). reflexivity. Qed.
